@@ -41,17 +41,28 @@
 #define REP_C1_PRE(s)                                                      \
 	(g_c1_master ? PTR_IS(g_c1, (void *) &(s)->ctx)                        \
 	             : __CPROVER_is_fresh(g_c1, sizeof(struct rep0_ctx)))
-/* s->recvq: contexts waiting for a request (each with its waiting aio) */
+/* s->recvq: contexts waiting for a request (each with its waiting aio).
+ * The shape is fixed per unit by -DREP_RQ=0|1|2 (case split over the bound). */
+#if REP_RQ == 0
+#define REP_RECVQ_PRE(s) (g_rq_shape == 0 && LIST_EMPTY_PRE(&(s)->recvq, OFF_RQ))
+#elif REP_RQ == 1
 #define REP_RECVQ_PRE(s)                                                   \
-	((g_rq_shape == 0 && LIST_EMPTY_PRE(&(s)->recvq, OFF_RQ)) ||           \
-	    (g_rq_shape == 1 && REP_C1_PRE(s) && __CPROVER_is_fresh(C1->raio, sizeof(nni_aio)) && \
-	        LIST_ONE_PRE(&(s)->recvq, OFF_RQ, &C1->rqnode)) ||             \
-	    (g_rq_shape == 2 && REP_C1_PRE(s) && __CPROVER_is_fresh(C1->raio, sizeof(nni_aio)) && \
-	        __CPROVER_is_fresh(g_c2, sizeof(struct rep0_ctx)) &&           \
-	        LIST_TWO_PRE(&(s)->recvq, OFF_RQ, &C1->rqnode, &C2->rqnode)))
-/* s->recvpipes: other pipes holding a request nobody has asked for yet */
+	(g_rq_shape == 1 && REP_C1_PRE(s) && __CPROVER_is_fresh(C1->raio, sizeof(nni_aio)) && \
+	    LIST_ONE_PRE(&(s)->recvq, OFF_RQ, &C1->rqnode))
+#else
+#define REP_RECVQ_PRE(s)                                                   \
+	(g_rq_shape == 2 && REP_C1_PRE(s) && __CPROVER_is_fresh(C1->raio, sizeof(nni_aio)) && \
+	    __CPROVER_is_fresh(g_c2, sizeof(struct rep0_ctx)) &&               \
+	    LIST_TWO_PRE(&(s)->recvq, OFF_RQ, &C1->rqnode, &C2->rqnode))
+#endif
+/* s->recvpipes: other pipes holding a request nobody has asked for yet
+ * (-DREP_RP=0|1).  State invariant of rep.c: a pipe is parked there only
+ * while no context waits, so REP_RQ > 0 goes with REP_RP == 0. */
+#if REP_RP == 0
+#define REP_RECVPIPES_PRE(s) (g_rp_shape == 0 && LIST_EMPTY_PRE(&(s)->recvpipes, OFF_RP))
+#else
 #define REP_RECVPIPES_PRE(s)                                               \
-	((g_rp_shape == 0 && LIST_EMPTY_PRE(&(s)->recvpipes, OFF_RP)) ||       \
-	    (g_rp_shape == 1 && __CPROVER_is_fresh(g_p1, sizeof(struct rep0_pipe)) && \
-	        LIST_ONE_PRE(&(s)->recvpipes, OFF_RP, &P1->rnode)))
+	(g_rp_shape == 1 && __CPROVER_is_fresh(g_p1, sizeof(struct rep0_pipe)) && \
+	    LIST_ONE_PRE(&(s)->recvpipes, OFF_RP, &P1->rnode))
+#endif
 #endif
